@@ -11,10 +11,12 @@ from qce_circuit.utilities.array_manipulation import unique_in_order
 def main(nq, ne, maxlen, out):
     rows = []
     kinds = ['READOUT', 'MICROWAVE', 'FLUX', 'ALL']
-    chans = [(q, k) for q in range(nq) for k in kinds]
+    qv = list(range(nq)) + [300]
+    chans = [(q, k) for q in qv for k in kinds]
 
     def mk(c):
-        return ChannelIdentifier(_id=c[0], _channel=QubitChannel[c[1]])
+        # the index is created afresh (as a value read from a file or computed would be), never a shared literal
+        return ChannelIdentifier(_id=int(str(c[0])), _channel=QubitChannel[c[1]])
     for a in chans:
         for b in chans:
             A, B = mk(a), mk(b)
@@ -41,7 +43,7 @@ def main(nq, ne, maxlen, out):
     # de-duplication of exactly-equal channel identifiers (distinct objects, equal values)
     import random
     rnd = random.Random(int(sys.argv[5]) if len(sys.argv) > 5 else 1)
-    exact = [(q, k) for q in range(nq) for k in kinds[:3]]      # without ALL: equality is then an equivalence
+    exact = [(q, k) for q in qv for k in kinds[:3]]      # without ALL: equality is then an equivalence
     for _ in range(200):
         s = [rnd.choice(exact) for _ in range(rnd.randint(0, 8))]
         try:
